@@ -2,7 +2,7 @@
    Print Assumptions; non-vacuity Examples at the end. *)
 From V Require Import Common.NumFacts C01.Model C01.Proofs C01.ProofsMulti C01.ProofsMix C01.ProofsOps
   C01.ProofsTotal C01.ProofsSplit C01.ProofsCopyM C01.ProofsCopy C01.ProofsAlias C01.ProofsDeep
-  C01.ProofsView C01.ProofsInv.
+  C01.ProofsView C01.ProofsInv C01.ProofsSepOwn.
 
 (* ===== mixing: value =====
    Whatever the receiver (single- or multi-phase), the inlets (any phases, single/multi, the
@@ -682,6 +682,35 @@ Theorem C01_alias_copy_remove_into_substream : forall a d s a' vst hsrc j p lbl 
     (forall j', j' <> j -> j' <> hcell hsrc -> nth_error (cells a') j' = nth_error (cells a) j').
 Proof. exact alias_copy_remove_into_substream. Qed.
 Print Assumptions C01_alias_copy_remove_into_substream.
+(* a MultiStream minus one of its OWN phases (the sub-stream multistream[lbl], which shares one row of the MultiStream's
+   flow data; also the single-phase streams a MultiStream.from_streams was assembled from): "restores the remainder" -
+   the row the sub-stream wraps ends empty, every other phase row keeps its content, package, phases and number of rows
+   stay, every other flow data and every stream object is as before.  (The per-chemical totals - total before minus what
+   the sub-stream showed - are C01_alias_sep_value with o the sub-stream.) *)
+Theorem C01_alias_sep_own_substream : forall a r o a' vst j p lbl m i,
+  views (cells a) (hs a) = Ok vst ->
+  nth_error (hs a) r = Some (HCell j) -> nth_error (hs a) o = Some (HView j p lbl) ->
+  nth_error (cells a) j = Some (MS m) -> pindex_exact p (mphases m) = Some i ->
+  phase_index lbl (mphases m) = Ok i -> (i < length (mrows m))%nat ->
+  astep a (OSep r o) = Ok a' ->
+  exists x, nth_error (cells a') j = Some (MS x) /\ mpkg x = mpkg m /\ mphases x = mphases m /\
+    length (mrows x) = length (mrows m) /\
+    (forall c, nthq (nth i (mrows x) []) c == 0) /\
+    (forall k, k <> i -> nth k (mrows x) [] = nth k (mrows m) []) /\
+    (forall j', j' <> j -> nth_error (cells a') j' = nth_error (cells a) j') /\ hs a' = hs a.
+Proof. exact alias_sep_own_substream. Qed.
+Print Assumptions C01_alias_sep_own_substream.
+Example C01_nonvacuous_alias_sep_own_substream :
+  nth_error (hs exA) 2 = Some (HCell 2) /\ nth_error (hs exA) 5 = Some (HView 2 Pl Pl) /\
+  phase_index Pl [Pg; Pl] = Ok 1%nat /\
+  match astep exA (OSep 2 5) with
+  | Ok a1 => match views (cells a1) (hs a1) with
+             | Ok v => store_eqb v [SS (mkc exP1 Pl [1; 2; 0]); SS (mkc exP1 Pg [0; 0; 0]);
+                                    MS (mkm exP1 [Pg; Pl] [[1; 0; 0]; [0; 0; 0]]); SS (mkc exP1 Ps [0; 1; 1]);
+                                    SS (mkc exP1 Pg [1; 2; 0]); SS (mkc exP1 Pl [0; 0; 0])]
+             | Err _ => false end
+  | Err _ => false end = true.
+Proof. repeat split; vm_compute; reflexivity. Qed.
 Example C01_nonvacuous_alias_substream_receiver :
   nth_error (hs exA) 5 = Some (HView 2 Pl Pl) /\ pindex_exact Pl [Pg; Pl] = Some 1%nat /\
   (exists a', astep exA (OScale 5 (1 # 2)) = Ok a') /\ (exists a', astep exA (OSep 5 3) = Ok a') /\
